@@ -57,6 +57,7 @@ type VC struct {
 	addrTerms   map[string]map[Term]*addrUse
 	quantKeys   map[string]bool
 	callArgs    map[string][]cval
+	callCount   map[string]int
 	havocs      []havocEvent
 	closures    map[Term]*closureInfo
 	fnTerms     map[Term]*ssa.Function
